@@ -797,6 +797,7 @@ func (c *Ctx) c06SkipPredicate(info *types.Info, fd *ast.FuncDecl) {
 		return
 	}
 	nodeT := mx(c06ExprPkg) + ".astNodeT"
+	defs := localDefs(info, fd.Body)
 	evalAt := func(e ast.Expr, k, o int64) (c06Val, bool) {
 		return c06EvalAST(info, e, func(x ast.Expr) (int64, bool) {
 			if id, ok := x.(*ast.Ident); ok && info.ObjectOf(id) == orderObj {
@@ -804,6 +805,12 @@ func (c *Ctx) c06SkipPredicate(info *types.Info, fd *ast.FuncDecl) {
 			}
 			if c06FieldAtom(info, x, nodeT, "key") {
 				return k, true
+			}
+			// a single-definition local holding node.key (`key := node.key`)
+			if id, ok := x.(*ast.Ident); ok {
+				if d := defs.resolve1(info, id); d != ast.Expr(id) && c06FieldAtom(info, d, nodeT, "key") {
+					return k, true
+				}
 			}
 			return 0, false
 		})
@@ -954,10 +961,10 @@ func (c *Ctx) c06Loop(pk *packages.Package, fd *ast.FuncDecl, sw *ast.SwitchStmt
 		}
 	}
 	// examined node = ast[astPos]
-	tag := unparen(sw.Tag)
+	defs := localDefs(info, fd.Body)
+	tag := defs.resolve1(info, sw.Tag)
 	nodeOK := false
 	if se, ok := tag.(*ast.SelectorExpr); ok && c06FieldAtom(info, se, mx(c06ExprPkg)+".astNodeT", "key") {
-		defs := localDefs(info, fd.Body)
 		x := defs.resolve1(info, se.X)
 		if ix, ok := x.(*ast.IndexExpr); ok && isAst(ix.X) && isPos(ix.Index) {
 			nodeOK = true
@@ -972,6 +979,29 @@ func (c *Ctx) c06Loop(pk *packages.Package, fd *ast.FuncDecl, sw *ast.SwitchStmt
 		for _, s := range loop.Body.List[idx+1:] {
 			if as, ok := s.(*ast.AssignStmt); ok && len(as.Lhs) == 1 && len(as.Rhs) == 1 && as.Tok == token.ASSIGN && isPos(as.Lhs[0]) {
 				reset = as
+			}
+		}
+		if reset == nil {
+			// path-wise form: every syntactic path from the end of the switch to the
+			// next iteration (end of the body or `continue`) passes a constant store
+			// to astPos; paths that return leave the scan. Branch conditions are not
+			// evaluated (all syntactic paths are required to reset).
+			if resets, ok := c06RestartPaths(info, loop.Body.List[idx+1:], isPos); ok && len(resets) > 0 {
+				allOK := true
+				var vals []string
+				for _, as := range resets {
+					v, isC := constInt(info, as.Rhs[0])
+					if !isC {
+						c.Undecided("R06d", "loop:restart", as.Pos(), "astPos is reset to a non-constant %s after a fold", c.src(as.Rhs[0]))
+						return
+					}
+					vals = append(vals, fmt.Sprint(v))
+					if v != 0 && v != -1 {
+						allOK = false
+					}
+				}
+				c.Check(allOK, "R06d", "loop:restart", resets[0].Pos(), "after every fold the scan restarts at the left end (astPos = %s on every path to the next iteration, then +1); a restart further right skips operators that are now left of astPos", strings.Join(vals, "/"))
+				return
 			}
 		}
 	}
@@ -1001,6 +1031,126 @@ func (c *Ctx) c06Loop(pk *packages.Package, fd *ast.FuncDecl, sw *ast.SwitchStmt
 		return
 	}
 	c.Check(v == 0 || v == -1, "R06d", "loop:restart", reset.Pos(), "after every fold the scan restarts at the left end (astPos = %d, then +1); a restart further right skips operators that are now left of astPos", v)
+}
+
+// c06RestartPaths walks the statements that follow the operator switch in the
+// fold loop. ok = every syntactic path that reaches the next iteration (falls
+// off the end of the list or executes an unlabeled `continue`) has executed a
+// plain `astPos = <expr>` store; the stores that are the LAST one on some such
+// path are returned. Paths ending in `return` leave the scan and need no reset.
+// Anything else that could move astPos or leave the iteration (break, goto,
+// labels, loops/switches containing a store or a branch) makes ok false.
+func c06RestartPaths(info *types.Info, list []ast.Stmt, isPos func(ast.Expr) bool) ([]*ast.AssignStmt, bool) {
+	type state struct{ last *ast.AssignStmt } // nil = no reset yet on this path
+	var out []*ast.AssignStmt
+	seenOut := map[*ast.AssignStmt]bool{}
+	bad := false
+	arrive := func(st state) {
+		if st.last == nil {
+			bad = true
+			return
+		}
+		if !seenOut[st.last] {
+			seenOut[st.last] = true
+			out = append(out, st.last)
+		}
+	}
+	opaqueOK := func(n ast.Node) bool {
+		ok := true
+		ast.Inspect(n, func(m ast.Node) bool {
+			switch x := m.(type) {
+			case *ast.AssignStmt:
+				for _, l := range x.Lhs {
+					if isPos(l) {
+						ok = false
+					}
+				}
+			case *ast.IncDecStmt:
+				if isPos(x.X) {
+					ok = false
+				}
+			case *ast.UnaryExpr:
+				if x.Op == token.AND && isPos(x.X) {
+					ok = false
+				}
+			case *ast.BranchStmt, *ast.ReturnStmt, *ast.FuncLit, *ast.LabeledStmt:
+				ok = false
+			}
+			return ok
+		})
+		return ok
+	}
+	// walk returns the states that fall through the end of list
+	var walk func(list []ast.Stmt, in []state) []state
+	walk = func(list []ast.Stmt, in []state) []state {
+		cur := in
+		for _, st := range list {
+			if len(cur) == 0 || bad {
+				return nil
+			}
+			switch s := st.(type) {
+			case *ast.AssignStmt:
+				if len(s.Lhs) == 1 && len(s.Rhs) == 1 && s.Tok == token.ASSIGN && isPos(s.Lhs[0]) {
+					cur = []state{{last: s}}
+					continue
+				}
+				if !opaqueOK(s) {
+					bad = true
+					return nil
+				}
+			case *ast.ReturnStmt:
+				return nil
+			case *ast.BranchStmt:
+				if s.Tok == token.CONTINUE && s.Label == nil {
+					for _, x := range cur {
+						arrive(x)
+					}
+					return nil
+				}
+				bad = true
+				return nil
+			case *ast.BlockStmt:
+				cur = walk(s.List, cur)
+			case *ast.IfStmt:
+				if s.Init != nil && !opaqueOK(s.Init) {
+					bad = true
+					return nil
+				}
+				if !opaqueOK(s.Cond) {
+					bad = true
+					return nil
+				}
+				thenOut := walk(s.Body.List, cur)
+				var elseOut []state
+				switch e := s.Else.(type) {
+				case nil:
+					elseOut = cur
+				case *ast.BlockStmt:
+					elseOut = walk(e.List, cur)
+				case *ast.IfStmt:
+					elseOut = walk([]ast.Stmt{e}, cur)
+				}
+				cur = append(append([]state{}, thenOut...), elseOut...)
+			case *ast.ExprStmt, *ast.DeclStmt, *ast.EmptyStmt, *ast.IncDecStmt, *ast.DeferStmt, *ast.GoStmt,
+				*ast.ForStmt, *ast.RangeStmt, *ast.SwitchStmt, *ast.TypeSwitchStmt, *ast.SelectStmt, *ast.SendStmt:
+				if !opaqueOK(s) {
+					bad = true
+					return nil
+				}
+			default:
+				bad = true
+				return nil
+			}
+		}
+		return cur
+	}
+	for _, x := range walk(list, []state{{}}) {
+		arrive(x)
+	}
+	if bad {
+		return nil, false
+	}
+	return out, true
 }
 
 // ---------------------------------------------------------------- R06c
@@ -1384,12 +1534,27 @@ func c06NeighbourOffset(fn *ssa.Function) (int64, bool) {
 // c06CheckComparator evaluates a comparator `func(a, b T) bool` consisting of
 // comparisons of its parameters on sample values and compares with `a op b`.
 func c06CheckComparator(fn *ssa.Function, kind string, op token.Token) (string, bool) {
-	if len(fn.Blocks) != 1 || len(fn.Params) != 2 {
+	if len(fn.Blocks) == 0 || len(fn.Blocks) > 16 || len(fn.Params) != 2 {
 		return "", false
 	}
 	rets := c06Returns(fn)
-	if len(rets) != 1 || len(rets[0].Results) != 1 {
+	if len(rets) == 0 {
 		return "", false
+	}
+	for _, r := range rets {
+		if len(r.Results) != 1 {
+			return "", false
+		}
+	}
+	// only comparisons/negations of the parameters, phis and control flow
+	for _, b := range fn.Blocks {
+		for _, in := range b.Instrs {
+			switch in.(type) {
+			case *ssa.BinOp, *ssa.UnOp, *ssa.Phi, *ssa.If, *ssa.Jump, *ssa.Return, *ssa.DebugRef:
+			default:
+				return "", false
+			}
+		}
 	}
 	type sample struct {
 		f float64
@@ -1434,6 +1599,7 @@ func c06CheckComparator(fn *ssa.Function, kind string, op token.Token) (string, 
 		}
 		return false
 	}
+	phiVal := map[ssa.Value]bool{} // phi values of the current concrete run
 	var eval func(v ssa.Value, env [2]sample) (bool, bool)
 	leaf := func(v ssa.Value, env [2]sample) (sample, bool) {
 		switch x := v.(type) {
@@ -1467,12 +1633,82 @@ func c06CheckComparator(fn *ssa.Function, kind string, op token.Token) (string, 
 			if ok1 && ok2 {
 				return holds(x.Op, cmp3(a, b)), true
 			}
+			if x.Op == token.EQL || x.Op == token.NEQ {
+				p, ok1 := eval(x.X, env)
+				q, ok2 := eval(x.Y, env)
+				if ok1 && ok2 {
+					return (p == q) == (x.Op == token.EQL), true
+				}
+			}
+		case *ssa.Const:
+			if x.Value != nil && x.Value.Kind() == constant.Bool {
+				return constant.BoolVal(x.Value), true
+			}
+		case *ssa.Phi:
+			b, ok := phiVal[x]
+			return b, ok
+		}
+		return false, false
+	}
+	// concrete run of the (loop-free or bounded) control flow for one pair of samples
+	run := func(env [2]sample) (bool, bool) {
+		for k := range phiVal {
+			delete(phiVal, k)
+		}
+		blk := fn.Blocks[0]
+		var prev *ssa.BasicBlock
+		for steps := 0; steps < 64; steps++ {
+			// phis read the values of the previous block simultaneously
+			newPhi := map[ssa.Value]bool{}
+			for _, in := range blk.Instrs {
+				ph, ok := in.(*ssa.Phi)
+				if !ok {
+					break
+				}
+				idx := -1
+				for i, p := range blk.Preds {
+					if p == prev {
+						idx = i
+					}
+				}
+				if idx < 0 {
+					return false, false
+				}
+				b, ok := eval(ph.Edges[idx], env)
+				if !ok {
+					return false, false
+				}
+				newPhi[ph] = b
+			}
+			for k, v := range newPhi {
+				phiVal[k] = v
+			}
+			var next *ssa.BasicBlock
+			switch t := blk.Instrs[len(blk.Instrs)-1].(type) {
+			case *ssa.Return:
+				return eval(t.Results[0], env)
+			case *ssa.Jump:
+				next = blk.Succs[0]
+			case *ssa.If:
+				b, ok := eval(t.Cond, env)
+				if !ok {
+					return false, false
+				}
+				if b {
+					next = blk.Succs[0]
+				} else {
+					next = blk.Succs[1]
+				}
+			default:
+				return false, false
+			}
+			prev, blk = blk, next
 		}
 		return false, false
 	}
 	for _, a := range samples {
 		for _, b := range samples {
-			got, ok := eval(rets[0].Results[0], [2]sample{a, b})
+			got, ok := run([2]sample{a, b})
 			if !ok {
 				return "", false
 			}
@@ -1755,12 +1991,18 @@ type c06FoldEnv struct {
 	pos    int64
 	newObj types.Object
 	locals map[types.Object]c06Sl
+	ints   map[types.Object]int64 // integer locals (`n := len(tree.ast)`, `p := tree.astPos`): value at the time of the assignment
 	parser string
 }
 
 func (e *c06FoldEnv) intAtom(x ast.Expr) (int64, bool) {
 	if c06FieldAtom(e.info, x, e.parser, "astPos") {
 		return e.pos, true
+	}
+	if id, ok := x.(*ast.Ident); ok && e.ints != nil {
+		if v, ok := e.ints[e.info.ObjectOf(id)]; ok {
+			return v, true
+		}
 	}
 	if lc, ok := isBuiltinCall(e.info, x, "len"); ok && len(lc.Args) == 1 {
 		if s, ok := e.slice(lc.Args[0]); ok && s.invalid == "" {
@@ -1942,22 +2184,54 @@ func (e *c06FoldEnv) run(list []ast.Stmt) string {
 				}
 			}
 		case *ast.AssignStmt:
-			if len(s.Lhs) != 1 || len(s.Rhs) != 1 || (s.Tok != token.ASSIGN && s.Tok != token.DEFINE) {
+			if len(s.Lhs) != len(s.Rhs) || (s.Tok != token.ASSIGN && s.Tok != token.DEFINE) {
 				return "?assignment " + src(token.NewFileSet(), s)
 			}
-			val, ok := e.slice(s.Rhs[0])
-			if !ok {
-				return "?slice expression " + types.ExprString(s.Rhs[0])
+			// all right-hand sides are evaluated before any store (Go's parallel assignment)
+			type rhsVal struct {
+				sl    c06Sl
+				i     int64
+				isInt bool
 			}
-			if val.invalid != "" {
-				return "panic: " + val.invalid
+			vals := make([]rhsVal, len(s.Rhs))
+			for i, r := range s.Rhs {
+				if bt, isBasic := e.info.TypeOf(r).Underlying().(*types.Basic); isBasic && bt.Info()&types.IsInteger != 0 {
+					iv, ok := c06EvalAST(e.info, r, e.intAtom)
+					if !ok || iv.IsBool {
+						return "?integer expression " + types.ExprString(r)
+					}
+					vals[i] = rhsVal{i: iv.I, isInt: true}
+					continue
+				}
+				val, ok := e.slice(r)
+				if !ok {
+					return "?slice expression " + types.ExprString(r)
+				}
+				if val.invalid != "" {
+					return "panic: " + val.invalid
+				}
+				vals[i] = rhsVal{sl: val}
 			}
-			if c06FieldAtom(e.info, s.Lhs[0], e.parser, "ast") {
-				e.ast = val
-			} else if id, ok := s.Lhs[0].(*ast.Ident); ok {
-				e.locals[e.info.ObjectOf(id)] = val
-			} else {
-				return "?store to " + types.ExprString(s.Lhs[0])
+			for i, l := range s.Lhs {
+				id, isId := l.(*ast.Ident)
+				switch {
+				case vals[i].isInt && isId:
+					if id.Name == "_" {
+						continue
+					}
+					if e.ints == nil {
+						e.ints = map[types.Object]int64{}
+					}
+					e.ints[e.info.ObjectOf(id)] = vals[i].i
+				case vals[i].isInt:
+					return "?store to " + types.ExprString(l)
+				case c06FieldAtom(e.info, l, e.parser, "ast"):
+					e.ast = vals[i].sl
+				case isId:
+					e.locals[e.info.ObjectOf(id)] = vals[i].sl
+				default:
+					return "?store to " + types.ExprString(l)
+				}
 			}
 		case *ast.ReturnStmt:
 			if len(s.Results) != 1 {
